@@ -36,7 +36,8 @@ ITEMS = [
     dict(src=SR, path='struct YamlSerializer'),
     dict(src=SR, path='impl YamlSerializer/fn newline', props=['C20'],
          ensures=[('appends_newline', 'r is Ok ==> final(self).out.text() == old(self).out.text().push(\'\\n\')'),
-                  ('frame', 'final(self).in_flow == old(self).in_flow && final(self).pending_inline_comment == old(self).pending_inline_comment')]),
+                  ('frame', 'final(self).in_flow == old(self).in_flow && final(self).pending_inline_comment == old(self).pending_inline_comment'),
+                  ('frame_block', 'same_block_cfg(final(self), old(self))')]),
     dict(src=SR, path='impl YamlSerializer/fn write_quoted', props=['C12', 'C01'], loop_rewrites=CHARS,
          rewrites=[(r'write!\(self\.out, "\\\\x\{:02X\}", c as u32\)\?', 'self.out.write_x2(c as u32)?', None, 'R12'),
                    (r'write!\(self\.out, "\\\\u\{:04X\}", c as u32\)\?', 'self.out.write_u4(c as u32)?', None, 'R12'),
@@ -118,7 +119,7 @@ ITEMS = [
          loop_rewrites=[(1, 'range'), (2, 'split_lf'), (3, 'char_indices'), (4, 'range')],
          rewrites=[(r"indent_buf\.push\(' '\);", "string_push(&mut indent_buf, ' ');", 1, 'R8'),
                    (r'line\.is_empty\(\)', 'str_is_empty(line)', 1, 'R8'),
-                   (r"line\.starts_with\(' '\)", "pl_str_starts_with_char(line, ' ')", 1, 'R8'),
+                   (r"line\.starts_with\(('(?:\\.|[^'\\])')\)", r"pl_str_starts_with_char(line, \1)", None, 'R8'),
                    (r'&line\[start\.\.ws_start\]', 'str_slice(line, start, ws_start)', 1, 'R8'),
                    (r'&line\[start\.\.\]', 'str_slice(line, start, str_len(line))', 1, 'R8')],
          requires=[('indent_fits', 'indent_step * indent <= usize::MAX')],
@@ -127,7 +128,8 @@ ITEMS = [
                  let ghost mut u: Seq<char> = Seq::<char>::empty();'''),
             dict(after='let mut start = 0usize;', text='''axiom_str_len_bounded(line); lemma_char_off_ends(cs); lemma_char_offs_are_boundaries(cs);
                  assert(cs.subrange(0, 0) =~= Seq::<char>::empty());
-                 assert(cs.len() > 0 && cs[0] != ' ') by { lemma_first_char_not_space(line); }'''),
+                 assert(cs.len() > 0 && cs[0] != ' ') by { lemma_first_char_not_space(line); }
+                 if !(line.spec_bytes().len() > 0 && line.spec_bytes()[0] == 0x09) { lemma_first_char_not(line, '\\t'); }'''),
             dict(after_re=r'let \(i, ch\) = __v3\[__i3\]; __i3 \+= 1;', text='let k = __i3 - 1; lemma_char_off_step(cs, k); if k > 0 { lemma_char_off_step(cs, k - 1); } lemma_char_off_monotonic(cs, k + 1, cs.len() as int); lemma_char_off_ends(cs); lemma_char_offs_are_boundaries(cs); assert(i == char_off(cs, k) && ch == cs[k]);'),
             dict(after='last_space_run = Some((run_start, run_end, run_len));', text='la = ra; lb = __i3 - 1;'),
             dict(after='run_start = i;', text='ra = __i3 - 1;'),
@@ -135,6 +137,8 @@ ITEMS = [
                  text='''assert(ks < la && la < lb && lb < cs.len() && all_spaces(cs, la, lb) && cs[lb] != ' ' && ws_len == lb - la
                         && ws_start == char_off(cs, la) && ws_end == char_off(cs, lb) && start == char_off(cs, ks));
                       lemma_char_off_monotonic(cs, ks, la);'''),
+            dict(before='out.write_str(str_slice(line, start, ws_start))?;', label='C20:a_folded_line_and_every_continuation_piece_start_with_neither_space_nor_tab',
+                 text="assert(cs[0] != ' ' && cs[0] != '\\t' && cs[lb] != ' ' && cs[lb] != '\\t');"),
             dict(before='out.write_str(str_slice(line, start, ws_start))?;', ghost=True, text='let ghost t_piece = out.text();'),
             dict(after_re=r'\bstart = ws_\w+;', label='C20:a_fold_swallows_exactly_one_space_of_the_run',
                  text='''lemma_fold_piece(cs, ks, la, lb);
@@ -154,6 +158,8 @@ ITEMS = [
                     ('piece_start', '0 <= ks <= __i3 && start == char_off(cs, ks) && (ks < cs.len() ==> cs[ks] != \' \') && u =~= cs.subrange(0, ks) && col <= __i3'),
                     ('last_completed_run', '''last_space_run is Some ==> ({ let (rs, re, rl) = last_space_run->Some_0;
                         ks < la && la < lb && lb <= __i3 && lb < cs.len() && rs == char_off(cs, la) && re == char_off(cs, lb) && rl == lb - la && all_spaces(cs, la, lb) && cs[lb] != ' ' })'''),
+                    ('C20:a_fold_point_is_never_followed_by_a_tab', 'last_space_run is Some ==> 0 <= lb < cs.len() && cs[lb] != \'\\t\''),
+                    ('C20:a_line_that_may_be_folded_starts_with_neither_space_nor_tab', 'cs.len() > 0 && cs[0] != \' \' && cs[0] != \'\\t\''),
                     ('run_in_progress', '''in_space_run ==> ks < ra && ra < __i3 && run_start == char_off(cs, ra) && run_len == __i3 - ra && all_spaces(cs, ra, __i3 as int)
                         && (last_space_run is Some ==> lb <= ra)'''),
                     ('not_in_a_run', '!in_space_run && __i3 > 0 && __i3 > ks ==> cs[__i3 - 1] != \' \''),
@@ -164,4 +170,120 @@ ITEMS = [
             4: dict(invariant=[('trailing_spaces', '__i4 <= __n4 && out.text() =~= t_piece + cs.subrange(ks, la) + fold_spaces(__i4 as int)'),
                                ], decreases='__n4 - __i4'),
          }),
+    # ---- block scalars: automatic selection, header and body as written by serialize_str (C12 / C20) ----
+    dict(src=SR, path='impl YamlSerializer/fn write_space_if_pending', props=['C12', 'C20', 'C01'],
+         ensures=[('writes_the_space_owed_after_a_colon', "r is Ok ==> final(self).out.text() == (if old(self).pending_space_after_colon { old(self).out.text().push(' ') } else { old(self).out.text() })"),
+                  ('frame', 'r is Ok ==> same_block_cfg(final(self), old(self)) && !final(self).pending_space_after_colon && final(self).at_line_start == old(self).at_line_start')]),
+    dict(src=SR, path='impl YamlSerializer/fn write_indent', props=['C12', 'C20', 'C01'], loop_rewrites=[(1, 'range')],
+         requires=[('indent_fits', 'old(self).indent_step * depth <= usize::MAX')],
+         ensures=[('frame', 'r is Ok ==> same_block_cfg(final(self), old(self)) && final(self).pending_space_after_colon == old(self).pending_space_after_colon && !final(self).at_line_start'),
+                  ('nothing_is_written_in_the_middle_of_a_line', 'r is Ok && !old(self).at_line_start ==> final(self).out.text() == old(self).out.text()')],
+         loops={1: dict(invariant=[('frame', '__i1 <= __n1 && same_block_cfg(self, old(self)) && self.pending_space_after_colon == old(self).pending_space_after_colon')],
+                        decreases='__n1 - __i1')}),
+    dict(src=SR, path='impl YamlSerializer/fn write_folded_block', id='YamlSerializer::write_folded_block', props=['C20', 'C01'],
+         rewrites=[(r'crate::wrapping::write_folded_block\(', 'write_folded_block(', 1, 'R9')],
+         requires=[('indent_fits', 'old(self).indent_step * indent <= usize::MAX')],
+         ensures=[('frame', 'r is Ok ==> same_block_cfg(final(self), old(self))')]),
+    dict(src=SR, path='impl YamlSerializer/fn write_scalar_prefix_if_anchor', trusted=True, props=[]),
+    dict(src='src/wrapping.rs', path='fn is_block_scalar_safe', props=['C12', 'C20', 'C01'], optional=True, loop_rewrites=[(1, 'chars')],
+         ensures=[('C12:text_with_a_carriage_return_or_nul_is_not_block_safe', 'r ==> block_text_ok(s@)'),
+                  ('exactly_the_control_characters_other_than_line_feed_and_tab_are_refused', "r == (forall|i: int| 0 <= i < s@.len() ==> !(is_cc(#[trigger] s@[i]) && s@[i] != '\\n' && s@[i] != '\\t'))")],
+         proofs=[dict(at='start', text='reveal(block_text_ok);')],
+         loops={1: dict(invariant=[('prefix_is_safe', "__n1 == s@.len() && __i1 <= __n1 && (forall|i: int| 0 <= i < __i1 ==> !(is_cc(#[trigger] s@[i]) && s@[i] != '\\n' && s@[i] != '\\t'))")],
+                        decreases='__n1 - __i1')},
+         canaries=['C12:text_with_a_carriage_return_or_nul_is_not_block_safe']),
+    dict(src=SR, path='impl Serializer for &mut YamlSerializer/fn serialize_str', id='serialize_str::block_indent_indicator_digit', trusted=True, props=[],
+         fragment=r'fn block_indent_indicator_digit\(indent_n: usize\) -> Result<char> \{.*?\n        \}', fragment_flags='S', wrapper='{FRAG}',
+         rewrites=[(r'-> Result<char>', '-> Result<char, SerError>', 1, 'R6')],
+         ensures=[('char_from_digit_radix_10', 'r is Ok <==> indent_n <= 9'), ('the_decimal_digit', 'r is Ok ==> r->Ok_0 == digit_char(indent_n as int)')]),
+    dict(src=SR, path='impl Serializer for &mut YamlSerializer/fn serialize_str', id='YamlSerializer::serialize_str#select', props=['C12', 'C20', 'C01'],
+         impl_header="impl<'a> YamlSerializer<'a>",
+         fragment=r'if self\.pending_str_style\.is_none\(\) && self\.in_flow == 0 && !self\.quote_all \{.*?\}\s*(?=if let Some\(style\) = self\.pending_str_style\.take\(\))',
+         fragment_flags='S', wrapper='fn serialize_str_select(&mut self, v: &str) { {FRAG} }',
+         pre_rewrites=[(r'use crate::ser_quoting::is_plain_value_safe;', '', 1, 'R9')],
+         rewrites=[(r"v\.contains\('\\n'\)", 'str_contains_lf(v)', 1, 'R8'),
+                   (r'v\.chars\(\)\.count\(\)', 'str_char_count(v)', 2, 'R8'),
+                   (r"(\w+)\.trim_end_matches\('\\n'\)", r'str_trim_end_lf(\1)', None, 'R8'),
+                   (r"trimmed\.replace\('\\n', \" \"\)", "str_replace_char(trimmed, '\\\\n', \" \")", 1, 'R8'),
+                   (r'is_plain_value_safe\(&normalized,', 'is_plain_value_safe(normalized.as_str(),', 1, 'R15')],
+         ensures=[('C20:an_automatic_literal_is_chosen_only_for_multi_line_text',
+                   "old(self).pending_str_style is None && final(self).pending_str_style == Some(StrStyle::Literal) ==> exists|i: int| 0 <= i < v@.len() && v@[i] == '\\n'"),
+                  ('C20:an_automatic_fold_is_chosen_only_for_one_line_of_text',
+                   "old(self).pending_str_style is None && final(self).pending_str_style == Some(StrStyle::Folded) ==> forall|i: int| 0 <= i < v@.len() ==> v@[i] != '\\n'"),
+                  ('C20:no_automatic_block_style_in_flow_context_or_when_everything_is_quoted',
+                   '(old(self).in_flow != 0 || old(self).quote_all) ==> final(self).pending_str_style == old(self).pending_str_style'),
+                  ('an_explicit_style_is_left_alone', 'old(self).pending_str_style is Some ==> final(self).pending_str_style == old(self).pending_str_style && final(self).pending_str_from_auto == old(self).pending_str_from_auto'),
+                  ('an_automatic_choice_is_marked_automatic', 'old(self).pending_str_style is None && final(self).pending_str_style is Some ==> final(self).pending_str_from_auto'),
+                  ('frame', 'same_layout(final(self), old(self)) && final(self).out.text() == old(self).out.text()')],
+         canaries=['C20:an_automatic_literal_is_chosen_only_for_multi_line_text', 'C20:an_automatic_fold_is_chosen_only_for_one_line_of_text']),
+    dict(src=SR, path='impl Serializer for &mut YamlSerializer/fn serialize_str', id='YamlSerializer::serialize_str#block', props=['C12', 'C20', 'C01'],
+         impl_header="impl<'a> YamlSerializer<'a>",
+         fragment=r'if let Some\(style\) = self\.pending_str_style\.take\(\) \{.*?self\.write_folded_block\(v, body_base\)\?;\s*\}\s*\}\s*self\.pending_str_from_auto = false;\s*return Ok\(\(\)\);\s*\}',
+         fragment_flags='S', wrapper='fn serialize_str_block(&mut self, v: &str, Ghost(pcol): Ghost<int>) -> Result<(), SerError> { {FRAG} Ok(()) }',
+         loop_rewrites=[(1, 'range'), (2, 'split_lf'), (3, 'range')],
+         pre_rewrites=[(r'indent_buf\.reserve\(spaces\);', '', 1, 'R36')],
+         rewrites=[(r"(\w+)\.trim_end_matches\('\\n'\)", r'str_trim_end_lf(\1)', None, 'R8'),
+                   (r'crate::wrapping::(first_line_leading_spaces|is_block_scalar_safe)\(', r'\1(', None, 'R9'),
+                   (r'v\.len\(\) - content\.len\(\)', 'str_len_diff_trailing_lf(v, content)', None, 'R8'),
+                   (r'content\.is_empty\(\)', 'str_is_empty(content)', 1, 'R8'),
+                   (r"indent_buf\.push\(' '\);", "string_push(&mut indent_buf, ' ');", 1, 'R8')],
+         requires=[('assumed:valid_options', 'old(self).indent_step >= 1'),
+                   ('assumed:layout_fits_the_machine', 'old(self).indent_step * (block_base(old(self)) + 1) <= usize::MAX && block_base(old(self)) + 1 <= usize::MAX'),
+                   ('seam:an_automatic_literal_has_a_line_break', "old(self).pending_str_from_auto && old(self).pending_str_style == Some(StrStyle::Literal) ==> exists|i: int| 0 <= i < v@.len() && v@[i] == '\\n'"),
+                   ('seam:an_automatic_fold_is_one_line', "old(self).pending_str_from_auto && old(self).pending_str_style == Some(StrStyle::Folded) ==> forall|i: int| 0 <= i < v@.len() ==> v@[i] != '\\n'"),
+                   # layout (SeqSer / MapSer, outside this unit): the parent of a scalar at nesting level `base` starts at column
+                   # indent_step * base, except nodes begun inline after "- " which are two columns right of the dash; both agree for
+                   # step 2, and at level 0 the parent starts at column 0
+                   ('assumed:layout_parent_column', '(old(self).indent_step == 2 || block_base(old(self)) == 0) ==> pcol == old(self).indent_step * block_base(old(self))')],
+         proofs=[
+            dict(at='start', ghost=True, text="""let ghost base0 = block_base(self) as int; let ghost step = self.indent_step as int;
+                 let ghost body_col = step * (base0 + 1); let ghost mut t1: Seq<char> = Seq::empty(); let ghost mut t2: Seq<char> = Seq::empty();
+                 let ghost tl = trailing_lf(v@); let ghost cont = strip_lf(v@); let ghost has_ind = first_line_spaces(split_lines(cont), 0) > 0;
+                 let ghost anchor_in = self.pending_anchor_id; let ghost explicit_in = !self.pending_str_from_auto;"""),
+            dict(at='start', text='lemma_trailing_lf_bound(v@); assert(step * (base0 + 1) == step * base0 + step) by(nonlinear_arith);'),
+            # ---- both styles, just before the style character is written ----
+            dict(before="self.out.write_char('|')?;", label='C12:a_block_scalar_is_chosen_only_for_text_it_can_carry_unchanged', text='assert(block_text_ok(v@));'),
+            dict(before="self.out.write_char('>')?;", label='C12:a_block_scalar_is_chosen_only_for_text_it_can_carry_unchanged', text='assert(block_text_ok(v@));'),
+            dict(before="self.out.write_char('|')?;", label='C20:a_block_scalar_carries_the_anchor_staged_for_it', props=['C20'], text='assert(anchor_in is None);'),
+            dict(before="self.out.write_char('>')?;", label='C20:a_block_scalar_carries_the_anchor_staged_for_it', props=['C20'], text='assert(anchor_in is None);'),
+            dict(before="self.out.write_char('|')?;", label='C20:an_automatic_literal_is_chosen_only_for_multi_line_text', text="assert(!explicit_in ==> exists|i: int| 0 <= i < v@.len() && v@[i] == '\\n');"),
+            dict(before="self.out.write_char('>')?;", label='C20:an_automatic_fold_is_chosen_only_for_one_line_of_text',
+                 text="assert(!explicit_in ==> (forall|i: int| 0 <= i < v@.len() ==> v@[i] != '\\n'));"),
+            dict(before="self.out.write_char('>')?;", label='C20:the_explicit_folded_wrapper_is_used_only_for_text_whose_line_breaks_it_preserves', props=['C20'],
+                 text='assert(explicit_in ==> fold_keeps_breaks(v@));'),
+            dict(before="self.out.write_char('|')?;", text='t1 = self.out.text();'),
+            dict(before="self.out.write_char('>')?;", text='t1 = self.out.text();'),
+            # ---- literal header ----
+            dict(before='let mut indent_buf: String = String::new();', label='C12:literal_header_gives_the_indentation_relative_to_the_parent_node_and_the_chomping_that_keeps_the_final_line_breaks',
+                 text="""assert(has_ind ==> 1 <= body_col - pcol <= 9);
+                      assert(self.out.text() =~= t1 + block_header('|', has_ind, body_col - pcol, chomp_of(tl)) + seq!['\\n']);"""),
+            dict(before='let mut indent_buf: String = String::new();', text='t2 = self.out.text();'),
+            # ---- literal body ----
+            dict(after_loop=1, text='assert(indent_buf@ =~= fold_spaces(body_col));'),
+            dict(after='let line = __v2[__i2]; __i2 += 1;', text="""let ll = split_lines(cont);
+                      assert(ll.take(__i2 as int) =~= ll.take(__i2 as int - 1).push(ll[__i2 as int - 1])); lemma_blt_push(fold_spaces(body_col), ll.take(__i2 as int - 1), ll[__i2 as int - 1]);"""),
+            dict(before_re=r'let __v2 = str_split_lf\(content\);', text='assert(split_lines(cont).take(0) =~= Seq::<Seq<char>>::empty()); lemma_blt_empty(fold_spaces(body_col));'),
+            dict(before_re=r'if trailing_nl >= 2 \{', text="""let ll = split_lines(cont); let one = Seq::<Seq<char>>::empty().push(Seq::<char>::empty());
+                      assert(ll.take(ll.len() as int) =~= ll); lemma_empties_push(ll, 0); lemma_empties_push(one, 0);
+                      lemma_blt_empty(fold_spaces(body_col)); lemma_blt_push(fold_spaces(body_col), Seq::<Seq<char>>::empty(), Seq::<char>::empty());"""),
+            dict(after='let _ = __i3; __i3 += 1;', text="""let aa = if cont.len() == 0 { Seq::<Seq<char>>::empty().push(Seq::<char>::empty()) } else { split_lines(cont) };
+                      lemma_empties_push(aa, (__i3 - 1) as nat); lemma_blt_push(fold_spaces(body_col), aa + empties((__i3 - 1) as nat), Seq::<char>::empty());"""),
+            dict(before_re=r'\}\s*StrStyle::Folded\s*=>', label='C12:literal_body_is_one_indented_line_per_line_of_the_text_and_per_kept_final_line_break_so_that_it_reads_back_as_the_text',
+                 text="""lemma_literal_reads_back(v@); lemma_lit_lines_shape(v@); lemma_blt_empty(fold_spaces(body_col));
+                      assert(self.out.text() =~= t2 + block_lines_text(fold_spaces(body_col), lit_lines(v@)));
+                      assert(lit_value(lit_lines(v@), chomp_of(tl)) =~= v@);"""),
+            # ---- folded header ----
+            dict(before='self.write_folded_block(v, body_base)?;', label='C20:folded_header_gives_the_indentation_relative_to_the_parent_node',
+                 text="""assert(has_ind ==> 1 <= body_col - pcol <= 9);
+                      assert(self.out.text() =~= t1 + block_header('>', has_ind, body_col - pcol, if explicit_in { Chomp::Clip } else { chomp_of(tl) }) + seq!['\\n']);"""),
+         ],
+         loops={1: dict(invariant=[('indent', '__i1 <= __n1 && __n1 == spaces && indent_buf@ =~= fold_spaces(__i1 as int)')], decreases='__n1 - __i1'),
+                2: dict(invariant=[('lines_so_far', """indent_str@ =~= fold_spaces(body_col) && __i2 <= __v2@.len() && __v2@.len() == split_lines(cont).len()
+                                    && (forall|i: int| 0 <= i < __v2@.len() ==> (#[trigger] __v2@[i])@ == split_lines(cont)[i])
+                                    && self.out.text() =~= t2 + block_lines_text(fold_spaces(body_col), split_lines(cont).take(__i2 as int))""")],
+                        decreases='__v2@.len() - __i2'),
+                3: dict(invariant=[('kept_breaks_so_far', """indent_str@ =~= fold_spaces(body_col) && __i3 <= __n3 && __n3 == tl - 1
+                                    && self.out.text() =~= t2 + block_lines_text(fold_spaces(body_col), (if cont.len() == 0 { Seq::<Seq<char>>::empty().push(Seq::<char>::empty()) } else { split_lines(cont) }) + empties(__i3 as nat))""")],
+                        decreases='__n3 - __i3')},
+         ),
 ]
